@@ -160,6 +160,55 @@ def _loop_class(lp, f):
     return None
 
 
+def inline_module_helpers(f, modtree):
+    """copy of `f` in which expression statements that call a module-level helper of the same module (`split(<double*> d.data, i, p)`) are
+    replaced by the helper's body, parameters substituted (pointer arguments stand for the arrays they point into)"""
+    import copy
+    helpers = {n.name: n for n in modtree.body if isinstance(n, ast.FunctionDef)}
+
+    class Sub(ast.NodeTransformer):
+        def __init__(self, m):
+            self.m = m
+
+        def visit_Name(self, n):
+            if n.id in self.m:
+                return copy.deepcopy(self.m[n.id])
+            return n
+
+    class T(ast.NodeTransformer):
+        def visit_Expr(self, st):
+            c = st.value
+            if isinstance(c, ast.Call) and isinstance(c.func, ast.Name) and c.func.id in helpers and not c.keywords:
+                h = helpers[c.func.id]
+                params = [a.arg for a in h.args.args]
+                if len(c.args) > len(params) or h.args.vararg or h.args.kwarg:
+                    return st
+                m = {}
+                for i, pn in enumerate(params):
+                    if i < len(c.args):
+                        a = util.strip_cast(c.args[i])
+                        if isinstance(a, ast.Attribute) and a.attr == 'data':
+                            a = a.value
+                        m[pn] = a
+                    else:
+                        j = i - (len(params) - len(h.args.defaults))
+                        if j < 0:
+                            return st
+                        m[pn] = h.args.defaults[j]
+                body = [b for b in h.body if not (isinstance(b, ast.Expr) and isinstance(b.value, ast.Constant))]
+                if not all(isinstance(b, (ast.Assign, ast.AugAssign, ast.AnnAssign, ast.Expr, ast.If)) for b in body):
+                    return st
+                local = util.assigned_names(ast.Module(body=body, type_ignores=[])) - set(params)
+                if local:
+                    return st       # the helper has locals of its own: not inlined
+                return [Sub(m).visit(copy.deepcopy(b)) for b in body]
+            return st
+    g = copy.deepcopy(f)
+    T().visit(g)
+    ast.fix_missing_locations(g)
+    return g
+
+
 class _ElementView(ast.NodeTransformer):
     """A[idx] -> A for the local arrays of partition(): the body of the loop over one species class, seen for one species of that class"""
 
@@ -168,7 +217,7 @@ class _ElementView(ast.NodeTransformer):
 
     def visit_Subscript(self, n):
         self.generic_visit(n)
-        if isinstance(n.value, ast.Name) and isinstance(n.slice, ast.Name) and n.slice.id in self.idx:
+        if isinstance(n.value, ast.Name) and ((isinstance(n.slice, ast.Name) and n.slice.id in self.idx) or src(n.slice).replace(' ', '') in self.idx):
             return ast.copy_location(ast.Name(id=n.value.id, ctx=n.ctx), n)
         return n
 
@@ -181,6 +230,7 @@ def partition_element_view(ctx, mod, cls, f, klass, mode=None):
     parent = f.args.args[1].arg
     problems = []
     body = []
+    f = inline_module_helpers(f, ctx.prog.mod(mod).tree)
     for st in f.body:
         if not isinstance(st, ast.For):
             body.append(st)
@@ -189,7 +239,7 @@ def partition_element_view(ctx, mod, cls, f, klass, mode=None):
         if lc is None:
             raise AnalysisError('%s.partition: loop over %s not understood' % (cls, src(st.iter)))
         lv = src(st.target)
-        idx_names = {lv} if lc[0] == 'all' else set()
+        idx_names = {lv} if lc[0] == 'all' else {'self.%s[%s]' % (lc[1], lv)}
         inner = []
         for b in st.body:
             if lc[0] == 'class' and isinstance(b, ast.Assign) and len(b.targets) == 1 and isinstance(b.targets[0], ast.Name) and \
@@ -201,7 +251,8 @@ def partition_element_view(ctx, mod, cls, f, klass, mode=None):
         for n in ast.walk(st):
             if isinstance(n, (ast.Assign, ast.AugAssign)):
                 for t in (n.targets if isinstance(n, ast.Assign) else [n.target]):
-                    if isinstance(t, ast.Subscript) and isinstance(t.value, ast.Name) and not (isinstance(t.slice, ast.Name) and t.slice.id in idx_names):
+                    if isinstance(t, ast.Subscript) and isinstance(t.value, ast.Name) and not (
+                            (isinstance(t.slice, ast.Name) and t.slice.id in idx_names) or src(t.slice).replace(' ', '') in idx_names):
                         problems.append('the loop over %s stores into %s, not at the index of its own species' % (src(st.iter), src(t)))
         mine = (lc[0] == 'all') or (lc[1] == klass)
         if mine:
@@ -211,7 +262,7 @@ def partition_element_view(ctx, mod, cls, f, klass, mode=None):
     g = copy.copy(f)
     g.body = body
     M, V = symx.possym('m'), symx.possym('V')
-    draws, states = [], []
+    draws, states, vols = [], [], []
 
     def call(n, env, se):
         nm = src(n.func).replace(' ', '')
@@ -228,12 +279,16 @@ def partition_element_view(ctx, mod, cls, f, klass, mode=None):
         for kw in n.keywords:
             if kw.arg == 'state':
                 states.append(se.ex(kw.value, env))
+            if kw.arg == 'v0':
+                vols.append(se.ex(kw.value, env))
         return None
 
     def on_expr(s_, env, se):
         c = s_.value
         if isinstance(c, ast.Call) and isinstance(c.func, ast.Attribute) and c.func.attr in ('set_state', 'py_set_state') and len(c.args) == 1:
             states.append(se.ex(c.args[0], env))
+        if isinstance(c, ast.Call) and isinstance(c.func, ast.Attribute) and c.func.attr in ('set_volume', 'py_set_volume') and len(c.args) == 1:
+            vols.append(se.ex(c.args[0], env))
         return True
     se = symx.SymExec(ctx.prog, cls, call=call, fresh_calls=('uniform_rv',), max_inline=0)
     se.on_expr = on_expr
@@ -246,6 +301,7 @@ def partition_element_view(ctx, mod, cls, f, klass, mode=None):
         raise AnalysisError('%s.partition (species class %s): %s' % (cls, klass, e))
     if len(states) != 2:
         raise AnalysisError('%s.partition (species class %s): %d daughter states found, expected 2' % (cls, klass, len(states)))
+    partition_element_view.last_volumes = (V, list(vols))
     return problems, M, states[0], states[1], draws
 
 
@@ -287,6 +343,11 @@ def check_partition_semantic(ctx, mod, cls, f):
                     problems.append('%s: the binomial draw is over %s, not over the mother count' % (tag, draws[0][0]))
                 elif not zero(d - sp.Symbol('binomial#1', nonnegative=True)):
                     problems.append('%s: the first daughter gets %s, not the binomial draw' % (tag, d))
+                else:
+                    V_, vols_ = partition_element_view.last_volumes
+                    if len(vols_) == 2 and not zero(draws[0][1] - vols_[0] / V_) and not (zero(vols_[0] - V_) and zero(vols_[1] - V_)):
+                        problems.append('%s: the binomial draw uses probability %s, the first daughter\'s volume fraction is %s' % (
+                            tag, draws[0][1], sp.simplify(vols_[0] / V_)))
     return problems, n_cases
 
 
@@ -350,8 +411,10 @@ def check_volumes(ctx, mod, cls, f, p_var):
                 problems.append('%s: first daughter volume %s, expected V/2' % (label, vd))
         if p is not None and sp.simplify(vd - V * p) != 0:
             problems.append('%s: binomial probability %s is not the first daughter volume fraction %s/V' % (label, p, vd))
-        if p is None and cls != 'PerfectBinomialVolumeSplitter':
+        if p is None and cls != 'PerfectBinomialVolumeSplitter' and p_var is not None:
             problems.append('%s: probability variable not found' % label)
+        # (no draw visible in partition() itself: the draw sits in a helper; R19.1-conservation compares its probability with the volume
+        # fraction on the inlined form)
     ctx.ob('R19.1-volume', cls, not problems, where,
            'daughter volumes are V*p and V*(1-p) (V/2 twice if perfect, V twice if duplicated); p is the binomial probability',
            '; '.join(problems))
